@@ -78,7 +78,12 @@ class MacroExpander(Visitor):
         )
 
     def visit_GateStatement(self, gate):
-        return replace_gate(gate, self.macros)
+        new_stmt = replace_gate(gate, self.macros)
+        if new_stmt is not gate:
+            # Normalize the expansion itself: a macro calling a macro
+            # yields blocks nested in blocks of the same type.
+            new_stmt = self.visit(new_stmt)
+        return new_stmt
 
 
 def replace_gate(gate, macros):
